@@ -814,12 +814,26 @@ def where_broadcast_case(args) -> Dict[str, Any]:
     mask = np.array([rng.random() < 0.5 for _ in range(int(np.prod(mask_shape)))], dtype=bool).reshape(mask_shape)
     res = {"unit": unit, "k": k, "shapes": [list(s) for s in shapes], "where": use_where, "fails": []}
     exact = u.cls_name in _INT_CLOSED
+    # the usual reason for a mask: operand values *outside the op's domain* at the masked-out entries (log(x, where=x>0)).
+    # Nothing is evaluated there, so the gradient there is 0 — not nan/inf.  (Only without operand broadcasting, so that a
+    # bad value cannot also reach a masked-in entry.)
+    poisoned = None
+    if use_where and all(tuple(s) == tuple(out_shape) for s in shapes) and out_shape and rng.random() < 0.5:
+        full_mask = np.broadcast_to(mask, out_shape)
+        if not full_mask.all():
+            poisoned = rng.choice([0.0, -1.0, -0.5, 1.0, 2.0])
+            arrays = [np.where(full_mask, a, poisoned) for a in arrays]
+            res["poisoned"] = poisoned
 
     def attempt(with_mask: bool) -> List[Dict[str, Any]]:
         kw = dict(u.call_kwargs)
         try:
             # reference: element-wise gradients on materialised operands, no mask, no broadcasting
             full = [np.ascontiguousarray(np.broadcast_to(a, out_shape)).ravel() for a in arrays]
+            if poisoned is not None and with_mask:
+                # reference on in-domain stand-ins at the masked-out entries (their gradient is discarded below)
+                fm = np.broadcast_to(mask, out_shape).ravel()
+                full = [np.where(fm, a, vals[0]) for a in full]
             eg, _ = _op_grads(cls, full, g.ravel(), (), kw)
             m = np.broadcast_to(mask, out_shape).ravel() if with_mask else np.ones(int(np.prod(out_shape)), dtype=bool)
             if with_mask:
